@@ -205,8 +205,13 @@ impl<'a> Ctx<'a> {
                 exact: false,
                 detached: false,
             };
+            // after a death without exit code the property only speaks about test cases that
+            // consequently did not run; one that did run is judged like any other
+            if matches!(stop, Some(Stop::NoCode(_))) && self.facts.delivered.contains_key(&t.nonce) {
+                stop = None;
+            }
             if let Some(s) = &stop {
-                tj.must_run = Some(false);
+                tj.must_run = if matches!(s, Stop::NoCode(_) | Stop::RunFail(_)) { None } else { Some(false) };
                 match s {
                     Stop::Skip(k) => {
                         tj.allowed = Allowed::Exactly(Report::Skipped);
@@ -987,7 +992,8 @@ impl<'a> Ctx<'a> {
                 // earliest and latest legitimate abort instants
                 let a_min = min_opt(t_i.map(|t| p.spawn_t.saturating_add(t)), dlimit.map(|d| t0.saturating_add(d)));
                 let a_max = min_opt(t_i.map(|t| cb_t.saturating_add(t)), dlimit.map(|d| t0.saturating_add(d)));
-                let slack = (x_ovh - ovh0.min(x_ovh)) + MS + 1;
+                // (20 ms of grace on top of the measured overhead: the properties do not fix a granularity)
+                let slack = (x_ovh - ovh0.min(x_ovh)) + 20 * MS;
                 if std::env::var("VSIM_DEBUG_TIMING").is_ok() {
                     eprintln!("timing: pid={} res={} x={} a_min={:?} a_max={:?} slack={} t0={} t_i={:?} dlimit={:?}", pid, res, x, a_min, a_max, slack, t0, t_i, dlimit);
                 }
@@ -1000,7 +1006,7 @@ impl<'a> Ctx<'a> {
                             format!("test {} was aborted at t={}ns but no limit applies", tj.nonce, x),
                         )),
                         Some(a) => {
-                            if x + MS < a {
+                            if x + 2 * MS < a {
                                 out.push(v(
                                     "C14",
                                     "aborted-before-limit",
